@@ -641,7 +641,7 @@ fn variants_case(ctx: &mut Ctx, t: Typ, h: &Headers, ck: bool, d: &Data, flags_l
             let cuts_arg = cuts.iter().map(|c| c.to_string()).collect::<Vec<_>>().join(",");
             let req = format!("rt {base} cuts={cuts_arg}");
             let chunks = cut_at(&text, &cuts);
-            let reqs: Vec<usize> = if k % 2 == 0 { vec![] } else { vec![1, 7, 64, 1000] };
+            let reqs: Vec<usize> = match k % 4 { 0 => vec![], 1 => vec![1, 7, 64, 1000], 2 => vec![0, 3, 0, 0, 100], _ => vec![0, 8192] };
             let (ans2, p2) = real_dearmor(&chunks, false, &reqs);
             ctx.case(req.clone(), ans2.clone());
             ctx.stat(&format!("cuts:class={cutclass}"));
@@ -839,7 +839,7 @@ fn b64read_cases(ctx: &mut Ctx) {
             1 => gen::random_chunking(&mut ctx.rng, inp, 7),
             _ => gen::random_chunking(&mut ctx.rng, inp, 700),
         };
-        let reqs: Vec<usize> = match i % 4 { 0 => vec![], 1 => vec![1], 2 => vec![3, 5, 767, 768, 769], _ => vec![100_000] };
+        let reqs: Vec<usize> = match i % 5 { 0 => vec![], 1 => vec![1], 2 => vec![3, 5, 767, 768, 769], 3 => vec![0, 2, 0, 1000], _ => vec![100_000] };
         let ans = b64read(inp, &chunks, &reqs);
         ctx.case(format!("b64read cap=1024 data={}", hx(inp)), ans);
         ctx.stat("b64read");
